@@ -48,6 +48,13 @@ func c09Item(name string) []byte {
 	if len(name) > 0 && name[len(name)-1] == 'h' {
 		hi = true
 	}
+	if len(name) > 0 && name[len(name)-1] == 'p' { // the first n bytes of one fixed non-uniform string
+		b := make([]byte, n)
+		for i := range b {
+			b[i] = byte(i*131+i>>3) ^ 0x5c
+		}
+		return b
+	}
 	b := make([]byte, n)
 	for i := range b {
 		if hi {
@@ -63,6 +70,16 @@ var c09ItemNames = func() []string {
 	var out []string
 	for _, n := range []int{0, 1, 2, 3, 4, 5, 6, 7, 8, 9, 20, 32, 33, 36} {
 		out = append(out, fmt.Sprintf("%d", n), fmt.Sprintf("%dh", n))
+	}
+	return out
+}()
+
+// prefix family: items that are prefixes of one another, with lengths around 16, 32, 64, 128, 256
+// (an implementation that remembers or compares items by a bounded part of their content confuses them)
+var c09PrefixNames = func() []string {
+	var out []string
+	for _, n := range []int{4, 8, 15, 16, 17, 31, 32, 33, 63, 64, 65, 66, 127, 128, 129, 255, 256, 257} {
+		out = append(out, fmt.Sprintf("%dp", n))
 	}
 	return out
 }()
@@ -194,7 +211,14 @@ func c09EvalHistory(w *mc.W, h c09History) {
 			}
 		}
 		// final observation: every item of the alphabet, every outpoint
-		for _, name := range c09ItemNames {
+		finalNames := c09ItemNames
+		for _, op := range h.Ops {
+			if op[len(op)-1] == 'p' { // histories over the prefix family are observed on that family too
+				finalNames = append(append([]string{}, c09ItemNames...), c09PrefixNames...)
+				break
+			}
+		}
+		for _, name := range finalNames {
 			it := c09Item(name)
 			want := loaded && model.Contains(it)
 			if got := f.Matches(it); got != want {
@@ -432,6 +456,35 @@ func runC09(c *mc.Ctx) {
 		}
 	})
 	c.Sample("history", c09History{Cfg: hcfgs[3], Ops: []string{"add:5", "unload", "m:5"}})
+	// histories over the prefix family: every sequence of <= 2 (3 thorough... quick: 3 on one configuration)
+	// insertions / queries of items that are prefixes of one another
+	{
+		var pmenu []string
+		for _, n := range c09PrefixNames {
+			pmenu = append(pmenu, "add:"+n, "m:"+n)
+		}
+		pcfgs := []c09Config{{Bytes: 255, HashFuncs: 2, Tweak: 0x7fffffff, Flags: 1}, {Bytes: 8, Prefill: 0xa5, HashFuncs: 5, Tweak: 0, Flags: 0}}
+		var hs []c09History
+		for ci, cfg := range pcfgs {
+			d3 := ci == 0 || c.Thorough()
+			for _, a := range pmenu {
+				hs = append(hs, c09History{Cfg: cfg, Ops: []string{a}})
+				for _, b := range pmenu {
+					hs = append(hs, c09History{Cfg: cfg, Ops: []string{a, b}})
+					if d3 {
+						for _, e := range pmenu {
+							hs = append(hs, c09History{Cfg: cfg, Ops: []string{a, b, e}})
+						}
+					}
+				}
+			}
+		}
+		c.Space("histories of depth <= 3 over {add, matches} x 18 items that are prefixes of one another (lengths around 16..256)", int64(len(hs)))
+		c.ParFor(int64(len(hs)), func(w *mc.W, i int64) {
+			w.State()
+			c09EvalHistory(w, hs[i])
+		})
+	}
 	// histories on filters built by NewFilter (incl. sizings whose hash-function count is 0 or clamped)
 	{
 		var ncfgs []c09Config
